@@ -36,7 +36,8 @@ ASSUMPTIONS = ["port-status messages that arrive before the features reply "
                "sockets are in-memory; loss is injected at the socket API"]
 REQUIRED = ["histories", "connections_up", "connections_down",
             "early_port_status", "reconnect_before_stale_close",
-            "registry_checks", "send_probes", "loss_mid_handshake",
+            "registry_checks", "registry_checks_in_up_handler", "send_probes",
+            "loss_mid_handshake",
             "barrier_unsupported_path"]
 TIMEOUT = {"quick": 900, "thorough": 7200}
 
@@ -102,6 +103,31 @@ class Monitor (object):
       self.fire("ConnectionUp carries wrong datapath id", "%r vs %r" %
                 (e.dpid, p.features))
     self.rep.count("connections_up")
+    # The registry as a ConnectionUp handler sees it (the usual place to send
+    # the first messages to a switch): this connection is live, handshaken
+    # and the most recent one for its datapath id, so it is the one listed.
+    try:
+      core = self.w.core
+      con = core.openflow.getConnection(e.dpid)
+      if con is not e.connection:
+        self.fire("registry does not list the connection while its "
+                  "ConnectionUp is delivered",
+                  "getConnection(%#x) is %s" %
+                  (e.dpid, "None" if con is None else
+                   "another (older) connection"))
+      else:
+        before = len(p.c.sent)
+        probe = ofwire.enc_message("echo_request", dict(xid=0x7e57, body=b"up"))
+        ok = core.openflow.sendToDPID(e.dpid, probe)
+        if not ok or bytes(p.c.sent[before:]) != probe:
+          self.fire("sendToDPID from a ConnectionUp handler does not reach "
+                    "the new connection",
+                    "returned %r, %d bytes written to its socket" %
+                    (ok, len(p.c.sent) - before))
+      self.rep.count("registry_checks_in_up_handler")
+    except Exception:
+      self.fire("registry unreadable inside ConnectionUp",
+                traceback.format_exc()[-300:])
 
   def on_down (self, e):
     p = self.peer_of(e.connection)
